@@ -426,6 +426,11 @@ open GenLifecycle in
 cancellation in the sleep ends the loop or the task is what the generated except table says (`sleepCatchesCancel`). -/
 theorem saver_tree_same : Res.same (tree saveOnSchedule.loopBody) (tSaverIter sleepCatchesCancel) = true := by decide
 
+open GenLifecycle in
+/-- Without a persistence file the generated context statement is connect, body, disconnect and nothing else (every
+use of the persistence object is under an `if self.persistence`). -/
+theorem plain_tree_same : Res.same (den false (contextStmt aenter aexit) .done) tPlain = true := by decide
+
 /-- The generated `save_on_schedule` is a `while True:` loop (so that `loopBody` is its body). -/
 theorem saver_is_loop : ∃ b, GenLifecycle.saveOnSchedule = .loopForever b := ⟨_, rfl⟩
 
@@ -472,5 +477,60 @@ theorem exit_clean_generated (κ : Classes) (f : Faults) (t v : Nat) (cs : List 
   rw [hf] at h3 h4
   rw [hs]
   exact ⟨h1, h2, h3, h4⟩
+
+/-- **C16's `connect_failure_leaves_nothing`, about the generated text** — for every class of the connect failure.
+`κ.connect = true` is the case the model of `Model/Lifecycle.lean` does not distinguish: the failure is cancellation-like
+(the task running `__aenter__` is cancelled while it is inside `connect`); the generated `except` clause around
+`connect` catches that too, so the saver is stopped, the final save happens and the cancellation propagates. -/
+theorem connect_failure_leaves_nothing_generated (κ : Classes) (f : Faults) (t v : Nat) (cs : List Choice)
+    (hl : f.loadFails = false) (hc : f.connectFails = true)
+    (hfin : (runL κ (genInit f t v) cs).sys.main = .finished) :
+    let s := (runL κ (genInit f t v) cs).sys
+    s.saver.alive = false ∧ s.entered = false ∧
+    s.outcome = (if f.finalSaveFails then some .saveErr else some .connectErr) ∧
+    (f.finalSaveFails = false → s.finalSaveDone = true ∧ s.file = .holds s.reg) := by
+  intro s
+  obtain ⟨h1, _, h3, h4⟩ := exit_clean_generated κ f t v cs hfin
+  have hs : s = hide (run (init f t v) cs) := generated_runs_model κ f t v cs
+  have hm : (run (init f t v) cs).main = .finished := by rw [← generated_main κ]; exact hfin
+  have hi : Lifecycle.Inv (run (init f t v) cs) := inv_run _ cs (inv_init f t v)
+  have hf : (run (init f t v) cs).faults = f := faults_run _ cs
+  unfold Lifecycle.Inv at hi
+  rw [hm] at hi
+  obtain ⟨_, _, _, _, h5, h6, _⟩ := hi
+  rw [hf] at h5 h6
+  have hent : s.entered = false := by rw [hs]; exact (h6 hl).mpr hc
+  have hst : s.started = true := by
+    rw [hs]
+    show (run (init f t v) cs).started = true
+    cases hst : (run (init f t v) cs).started with
+    | true => rfl
+    | false => exact absurd (h5 hst).1 (by simp [hl])
+  refine ⟨h1, hent, ?_, ?_⟩
+  · rw [h4]; simp [expectedOutcome, hl, hc]
+  · intro hfs
+    rcases h3 hst with h | h
+    · exact h
+    · exact absurd h.1 (by simp [hfs])
+
+/-! ### Non-vacuity: the generated machine runs -/
+
+/-- The task entering the context is cancelled inside `connect` while the saver is in the `write` of its first save:
+the generated handler stops the saver, saves a final time, and the cancellation (reported as the connect step's
+failure) propagates. -/
+example :
+    let s := (runL { connect := true } (genInit { connectFails := true } 0 7)
+      [.main, .main, .saver true, .saver true, .main, .main, .saver false, .saver false, .main, .main, .main, .main]).sys
+    s.main = .finished ∧ s.saver = .cancelled ∧ s.entered = false ∧ s.finalSaveDone = true ∧ s.file = .holds 7 ∧
+    s.outcome = some .connectErr := by
+  decide
+
+/-- A normal session: enter, one periodic save, the body changes the registry, exit while the saver sleeps. -/
+example :
+    let s := (runL {} (genInit {} 0 0)
+      [.main, .main, .main, .saver true, .saver true, .saver true, .saver true, .mutate, .main, .main, .main,
+       .saver true, .main, .main, .main, .main]).sys
+    s.main = .finished ∧ s.saver.alive = false ∧ s.saveStarts = [0] ∧ s.file = .holds 1 ∧ s.outcome = none := by
+  decide
 
 end AioMySensors.LL
